@@ -29,7 +29,7 @@
 #include <adept/Packet.h>
 #include <adept/traits.h>
 
-#ifdef ADEPT_STORAGE_THREAD_SAFE
+#if defined(ADEPT_STORAGE_THREAD_SAFE) || defined(ADEPT_CXX11_FEATURES)
 #include <atomic>
 #endif
 
@@ -42,8 +42,16 @@ namespace adept {
   namespace internal {
     // To check for memory leaks, we keep a running total of the number
     // of Storage objects that are created and destroyed
+    // Every Storage constructor and destructor increments these, in
+    // whichever thread it runs, so they are atomic when the language
+    // allows
+#ifdef ADEPT_CXX11_FEATURES
+    extern std::atomic<Index> n_storage_objects_created_;
+    extern std::atomic<Index> n_storage_objects_deleted_;
+#else
     extern Index n_storage_objects_created_;
     extern Index n_storage_objects_deleted_;
+#endif
   }
 
   // -------------------------------------------------------------------
